@@ -814,7 +814,6 @@ func (b *BaseStore) LoadFromSnapshot(ctx context.Context) error {
 	}
 
 	var entries []ipfslog.Entry
-	maxClock := 0
 
 	for i := 0; i < header.Size; i++ {
 		entryLengthRaw := make([]byte, 2)
@@ -837,12 +836,7 @@ func (b *BaseStore) LoadFromSnapshot(ctx context.Context) error {
 		}
 
 		entries = append(entries, e)
-		if maxClock < e.Clock.GetTime() {
-			maxClock = e.Clock.GetTime()
-		}
 	}
-
-	b.recalculateReplicationMax(maxClock)
 
 	var headsCids []cid.Cid
 	for _, h := range header.Heads {
@@ -867,6 +861,18 @@ func (b *BaseStore) LoadFromSnapshot(ctx context.Context) error {
 	if err != nil {
 		return fmt.Errorf("unable to load log: %w", err)
 	}
+
+	// only what the recorded heads lead to is merged: the maximum counts those
+	// entries, not every record of the file (a snapshot written while the log
+	// grew holds records its heads do not cover)
+	maxClock := 0
+	for _, e := range log.GetEntries().Slice() {
+		if t := e.GetClock().GetTime(); maxClock < t {
+			maxClock = t
+		}
+	}
+
+	b.recalculateReplicationMax(maxClock)
 
 	if _, err = b.OpLog().Join(log, -1); err != nil {
 		return fmt.Errorf("unable to join log: %w", err)
